@@ -195,6 +195,14 @@ def call_lib(I, name, args, kwargs, node):
         if sum(len(p_) for p_ in pools) > 4000:
             return Top("itertools.product too large to unfold")
         return ListLit([TupS(list(t)) for t in itertools.product(*pools)])
+    if name == "itertools.islice" and a and all(isinstance(x, Const) and (x.v is None or isinstance(x.v, int)) for x in a[1:]) and 2 <= len(a) <= 4:
+        # lazily: only what the slice needs is pulled from an explicit iterator
+        import itertools as _it
+        sl = [x.v for x in a[1:]]
+        try:
+            return ListLit(list(_it.islice(iter(I.iterate(a[0], node)), *sl)))
+        except ValueError as e:
+            raise _Raise.of(e, name)
     if name in ("itertools.chain", "itertools.chain.from_iterable"):
         seqs = a if name == "itertools.chain" else I.iterate(a[0], node)
         return ListLit([x for s_ in seqs for x in I.iterate(s_, node)])
@@ -228,6 +236,25 @@ def call_lib(I, name, args, kwargs, node):
             except re.error as e:
                 raise _Raise(f"re.error {e}")
         return Top("re.compile of a non-literal pattern")
+    if name in ("operator.itemgetter", "itemgetter") and a and not kwargs:
+        keys = list(a)
+
+        def getter(I_, a_, kw_, keys=keys):
+            vals = [I_.getitem(a_[0], k, node) for k in keys]
+            return vals[0] if len(vals) == 1 else TupS(vals)
+        return Fn("py", impl=getter, name="itemgetter")
+    if name in ("operator.attrgetter", "attrgetter") and a and not kwargs and all(isinstance(x, Const) and isinstance(x.v, str) for x in a):
+        names = [x.v for x in a]
+
+        def agetter(I_, a_, kw_, names=names):
+            vals = []
+            for nm in names:
+                v = a_[0]
+                for part in nm.split("."):
+                    v = I_.getattr(v, part, node)
+                vals.append(v)
+            return vals[0] if len(vals) == 1 else TupS(vals)
+        return Fn("py", impl=agetter, name="attrgetter")
     if name == "curry" or name.endswith(".partial"):
         if not a:
             return Top("curry()")
@@ -241,6 +268,37 @@ def call_lib(I, name, args, kwargs, node):
         return Fn("compose", fns=list(a), name="compose_left")
     if name == "compose":
         return Fn("compose", fns=list(reversed(a)), name="compose")
+    if name in ("copy.copy", "copy.deepcopy") and len(a) == 1:
+        deep = name == "copy.deepcopy"
+        memo = {}
+
+        def cp(v, top):
+            # containers and objects are new (their members too when deep); constants, leaves and functions are shared
+            if not (top or deep):
+                return v
+            if id(v) in memo:
+                return memo[id(v)]
+            if isinstance(v, DictS):
+                new = DictS(OrderedDict(), set(v.optional))
+                memo[id(v)] = new
+                for k_, x in v.items.items():
+                    new.items[k_] = cp(x, False)
+                if getattr(v, "table", None) is not None:
+                    new.table = v.table
+                return new
+            if isinstance(v, (ListLit, TupS, SetS)):
+                new = type(v)([])
+                memo[id(v)] = new
+                new.elts.extend(cp(x, False) for x in v.elts)
+                return new
+            if isinstance(v, Obj) and v.cls not in ("iterator", "File", "Lock") and not any(isinstance(f_, Fn) and f_.kind == "py" for f_ in v.fields.values()):
+                new = Obj(v.cls, OrderedDict(), klass=getattr(v, "klass", None))
+                memo[id(v)] = new
+                for k_, x in v.fields.items():
+                    new.fields[k_] = cp(x, False)
+                return new
+            return v
+        return cp(a[0], True)
     if name == "identity":
         return a[0]
     if name == "valmap":
@@ -626,6 +684,12 @@ def builtin(I, name, a, kwargs, node, _no_override=False):
     ov = getattr(I, "builtin_overrides", None)
     if ov and name in ov and not _no_override:
         return ov[name](I, a, kwargs)
+    if name in ("dict.fromkeys", "OrderedDict.fromkeys") and a:
+        default = a[1] if len(a) > 1 else Const(None)
+        keys = seq_elts(I, a[0], node)
+        if not all(isinstance(k, Const) for k in keys):
+            raise ShapeError("dict.fromkeys over keys that are not constants")
+        return DictS(OrderedDict((k.v, default) for k in keys))
     if name.startswith(("str.", "dict.", "list.", "bytes.")) and a:
         # unbound method used as a function: str.lower(x) == x.lower()
         return call_method(I, a[0], name.split(".", 1)[1], list(a[1:]), kwargs, node)
@@ -699,6 +763,23 @@ def builtin(I, name, a, kwargs, node, _no_override=False):
         if any(isinstance(x, ListOf) for x in a):
             ns = [x.n for x in a if isinstance(x, ListOf)]
             return ListOf(TupS([x.elem if isinstance(x, ListOf) else Top("zip mix") for x in a]), ns[0])
+        if any(isinstance(x, Obj) and x.cls == "iterator" for x in a):
+            # an explicit iterator among the arguments: zip pulls one element from each argument in turn and stops at the first
+            # that is exhausted - what it did not pull stays in the iterator for whoever reads it next
+            its = [iter(I.iterate(x, node)) for x in a]
+            rows = []
+            while True:
+                row = []
+                for it in its:
+                    try:
+                        row.append(next(it))
+                    except StopIteration:
+                        row = None
+                        break
+                if row is None:
+                    break
+                rows.append(TupS(row))
+            return ListLit(rows)
         seqs = [seq_elts(I, x, node) for x in a]
         n = min(len(s) for s in seqs) if seqs else 0
         return ListLit([TupS([s[i] for s in seqs]) for i in range(n)])
@@ -955,6 +1036,10 @@ def call_method(I, recv, name, args, kwargs, node):
         return Top(f"dict.{name}")
     if isinstance(recv, (ListLit,)):
         if name == "append":
+            rec = getattr(I, "_sym_appends", None)
+            if rec:
+                cur = rec[-1].setdefault(id(recv), [recv, 0, len(recv.elts)])
+                cur[1] += 1
             recv.elts.append(args[0])
             return Const(None)
         if name == "extend":
